@@ -327,7 +327,8 @@ func (e *Engine) Count(haystack []byte, n int) int {
 
 	// DFA fast path: call DFA functions directly, skip meta prefilter layer.
 	// SearchAt has integrated prefilter at start state — no duplicate scan.
-	useDFADirect := (e.strategy == UseDFA || e.strategy == UseBoth) &&
+	// Not in Longest (POSIX) mode: the DFA reports leftmost-first match ends.
+	useDFADirect := !e.longest && (e.strategy == UseDFA || e.strategy == UseBoth) &&
 		e.dfa != nil && e.reverseDFA != nil &&
 		state.dfaCache != nil && state.revDFACache != nil
 
